@@ -497,6 +497,22 @@ try:
             except IndexError:
                 pass
             raise Boom()
+        elif mode == "zero-steps":
+            # bar-mode calls with nothing to do (a bar over zero steps): asked again for a time already reached, a first call to the start
+            # time itself, an empty propagation; the objects stay referenced
+            def ham3(t): return 0.3 * oqupy.operators.sigma("x")
+            KEEP = [oqupy.Tempo(oqupy.TimeDependentSystem(ham3), bath, par, rho, 0.0), oqupy.Tempo(oqupy.TimeDependentSystem(ham3), bath, par, rho, 0.2)]
+            KEEP[0].compute(0.3, progress_type="bar")
+            KEEP[0].compute(0.3, progress_type="bar")
+            KEEP[1].compute(0.2, progress_type="bar")
+            pt = oqupy.process_tensor.SimpleProcessTensor(2, dt=0.1)
+            for k in range(3): pt.set_mpo_tensor(k, np.ones((1, 1, 4), dtype=complex))
+            for k in range(4): pt.set_cap_tensor(k, np.ones(1, dtype=complex))
+            oqupy.compute_dynamics(oqupy.System(0.3 * oqupy.operators.sigma("x")), initial_state=rho, process_tensor=pt, num_steps=0, progress_type="bar")
+            import oqupy.util as u
+            b = u.ProgressBar(0, None); b.enter(); b.update(0); b.exit()
+            KEEP.append(b)
+            raise Boom()
         elif mode == "gibbs-again":
             KEEP = oqupy.GibbsTempo(oqupy.System(0.3 * oqupy.operators.sigma("x")), oqupy.Bath(np.diag([1.0, -0.5]), oqupy.PowerLawSD(alpha=0.1, zeta=1, cutoff=3.0,
                                     cutoff_type="exponential", temperature=0.7)), oqupy.GibbsParameters(n_steps=5, epsrel=1e-6))
@@ -684,7 +700,7 @@ def run(chk):
         outil.PROGRESS_DICT.pop("rec", None)
 
     # ---- (iv) runtime: real Timer threads in a child interpreter ---------------------------
-    for mode in ["tempo", "dynamics", "brokenstream", "tebd-threads", "tebd-threads-fail", "meanfield-many", "meanfield-many-fail", "gibbs-again"] + ["stress"] * (3 if thorough else 1):
+    for mode in ["tempo", "dynamics", "brokenstream", "tebd-threads", "tebd-threads-fail", "meanfield-many", "meanfield-many-fail", "gibbs-again", "zero-steps"] + ["stress"] * (3 if thorough else 1):
         alive, grew, err = run_child(mode, chk.seed)
         chk.search_cases += 1
         info = {"kind": "runtime", "mode": mode, "threads_alive": alive, "output_grew": grew}
@@ -695,7 +711,7 @@ def run(chk):
             key = {"tempo": "thread-left:Tempo.compute", "dynamics": "exit-skipped:compute_dynamics", "stress": "timer-race",
                    "brokenstream": "thread-left:failing-output-stream", "tebd-threads": "thread-left:PtTebd-multithread",
                    "tebd-threads-fail": "thread-left:PtTebd-multithread", "meanfield-many": "thread-left:MeanFieldTempo-several-species",
-                   "meanfield-many-fail": "thread-left:MeanFieldTempo-several-species", "gibbs-again": "thread-left:GibbsTempo-asked-again"}[mode]
+                   "meanfield-many-fail": "thread-left:MeanFieldTempo-several-species", "gibbs-again": "thread-left:GibbsTempo-asked-again", "zero-steps": "thread-left:bar-over-zero-steps"}[mode]
             chk.fail(key, f"{mode}: {alive} thread(s) still alive after the call returned/raised; output grew by {grew} bytes afterwards", info)
 
     vals, errs = run_cases("C19", HEADER, exprs, chunk=400)
